@@ -234,7 +234,7 @@ pub fn run(mut chk: Check) -> ! {
         }
         chk.explicit("grid", &inputs, case_grid);
     }
-    let n = chk.scale(20_000, 1_000_000);
+    let n = chk.scale(400_000, 2_000_000);
     chk.campaign(CampaignCfg::new("random", n), case_random);
     chk.campaign(CampaignCfg::new("null_ns", n / 4), case_null_ns);
     chk.finish()
